@@ -875,7 +875,7 @@ class Parser:
                 if isinstance(field.type_obj.type_obj, NativeType):
                     cobj = type_map[field.type_obj.type_obj.name]
                 else:
-                    cobj = self.get_ctype_size(field.type_obj.type_obj)
+                    cobj = self.get_ctype_cls(field.type_obj.type_obj)
             else:
                 raise RuntimeError(f"Unexpected type {type(field.type_obj)}")
 
